@@ -159,59 +159,65 @@ Proof. exact ex_released_ok. Qed.
    Model/StreamResume.v: runner.run with interrupts.  A run is a sequence of CALLS of the runnable with
    the same checkpoint id; a call ends with END in the ready map of calculateNextTasks (after START's
    pseudo task, in the main loop, or in the second round an interrupting pass makes after waitAll — the
-   run then returns the result and the interrupt is forgotten), or leaves through handleInterrupt
-   (interrupt-before / interrupt-after nodes: computed by the model from the configuration); the next
-   call restores the checkpoint (every stored value and every pending input becomes a fresh stream),
-   closes the input it was called with and continues.  The theorems quantify over EVERY graph, EVERY
-   interrupt configuration, EVERY number of calls, EVERY schedule and branch outcome. *)
+   run then returns the result and the interrupt is forgotten), or leaves through an interrupt exit:
+   handleInterrupt for interrupt-before / interrupt-after nodes (computed by the model from the
+   configuration), handleInterruptWithSubGraphAndRerunNodes when a completed task returned
+   InterruptAndRerun or is a nested graph that was interrupted itself (which tasks did is part of the
+   recorded call); the next call restores the checkpoint (every stored value and every pending input
+   becomes a fresh stream), closes the input it was called with and continues.  The theorems quantify
+   over EVERY graph, EVERY interrupt configuration, EVERY number of calls, EVERY schedule, branch outcome
+   and set of self-interrupting tasks. *)
 
-(* all-predecessor mode (Graph and eager Workflow): however many calls were interrupted before, if the
-   last call returns the output and every node ran or was skipped, nothing was dropped and the only
-   live handle is the output — whichever of the three places of runner.run returned it *)
-Theorem finished_run_open_empty_dag : forall g cfg segs out dropped st,
+(* all-predecessor mode (Graph and eager Workflow): however many calls were interrupted before and in
+   whichever way, if the last call returns the output and every node ran or was skipped, nothing was
+   dropped and the only live handle is the output — whichever of the three places of runner.run
+   returned it *)
+Theorem finished_run_open_empty_dag : forall g cfg start tms out dropped st,
   g_dag g = true -> NoDup (all_keys g) -> ~ In kEND (all_keys g) -> covered g = true ->
-  run_int g cfg segs = Ok (SDone out dropped st) ->
+  run_int g cfg start tms = Ok (SDone out dropped st) ->
   all_finished g st = true ->
   s_open (rs_store st) = [out] /\ dropped = [].
 Proof. exact resumed_open_empty_dag_s. Qed.
 Print Assumptions finished_run_open_empty_dag.
 
-Theorem finished_run_open_empty_dag_reach : forall g cfg segs out dropped st,
+Theorem finished_run_open_empty_dag_reach : forall g cfg start tms out dropped st,
   g_dag g = true -> NoDup (all_keys g) -> ~ In kEND (all_keys g) -> covered g = true -> all_reach g = true ->
-  run_int g cfg segs = Ok (SDone out dropped st) ->
+  run_int g cfg start tms = Ok (SDone out dropped st) ->
   all_finished g st = true /\ s_open (rs_store st) = [out] /\ dropped = [].
 Proof. exact resumed_open_empty_dag_reach_s. Qed.
 Print Assumptions finished_run_open_empty_dag_reach.
 
-(* any-predecessor mode: END reached with no other node scheduled *)
-Theorem finished_run_open_empty_pregel : forall g cfg segs out st,
-  g_dag g = false -> NoDup (all_keys g) -> ~ In kEND (all_keys g) ->
-  run_int g cfg segs = Ok (SDone out [] st) ->
+(* any-predecessor mode: END reached with no other node scheduled.  Interrupts of the graph
+   (interrupt-before / interrupt-after nodes) in every call; no task interrupts itself ([no_reruns]) *)
+Theorem finished_run_open_empty_pregel_partial : forall g cfg start tms out st,
+  g_dag g = false -> NoDup (all_keys g) -> ~ In kEND (all_keys g) -> no_reruns tms ->
+  run_int g cfg start tms = Ok (SDone out [] st) ->
   s_open (rs_store st) = [out].
 Proof. exact resumed_open_empty_pregel_s. Qed.
-Print Assumptions finished_run_open_empty_pregel.
+Print Assumptions finished_run_open_empty_pregel_partial.
 
-(* a suspended run holds nothing: whenever a call — the first or a resumed one — leaves through
-   handleInterrupt, after one or two rounds of calculateNextTasks, the live handles are exactly the
+(* a suspended run holds nothing: whenever a call — the first or a resumed one — leaves through an
+   interrupt exit, after one or two rounds of calculateNextTasks, the live handles are exactly the
    streams stored in the channels and the inputs of the tasks about to start, and the checkpoint
-   conversion drains every one of them (generalises interrupt_exit_drains to every call and to the
-   eager second round) *)
-Theorem suspended_run_holds_nothing : forall g cfg segs ready st,
+   conversion drains every one of them (generalises interrupt_exit_drains to every call, to the eager
+   second round and to the interrupts of tasks) *)
+Theorem suspended_run_holds_nothing : forall g cfg start tms ready rr st,
   NoDup (all_keys g) -> ~ In kEND (all_keys g) -> (g_dag g = true -> covered g = true) ->
-  run_int g cfg segs = Ok (SInt ready st) ->
+  (g_dag g = false -> no_reruns tms) ->
+  run_int g cfg start tms = Ok (SInt ready rr st) ->
   exists s, checkpoint_drain g ready st = Ok s /\ s_open s = [].
 Proof. exact suspended_holds_nothing_s. Qed.
 Print Assumptions suspended_run_holds_nothing.
 
 (* every stream that existed during ANY call of the run — the inputs, every node's output, every
-   copy, every merged and empty stream, the streams restored from the checkpoints, the inputs handed to
-   the resumed calls (ignored, closed by runner.run since 56b8ed6) — is released once the caller has
-   drained or closed the output of the last call *)
-Theorem every_stream_released_all_calls : forall g cfg segs out dropped st s',
+   copy, every merged and empty stream, the streams restored from the checkpoints, the empty inputs of
+   the tasks to rerun, the inputs handed to the resumed calls (ignored, closed by runner.run since
+   56b8ed6) — is released once the caller has drained or closed the output of the last call *)
+Theorem every_stream_released_all_calls : forall g cfg start tms out dropped st s',
   NoDup (all_keys g) -> ~ In kEND (all_keys g) ->
   (g_dag g = true -> covered g = true /\ all_finished g st = true) ->
-  (g_dag g = false -> dropped = []) ->
-  run_int g cfg segs = Ok (SDone out dropped st) ->
+  (g_dag g = false -> dropped = [] /\ no_reruns tms) ->
+  run_int g cfg start tms = Ok (SDone out dropped st) ->
   consume out (rs_store st) = Ok s' ->
   s_open s' = [] /\ forall h, created (s_hist s') h -> released (s_hist s') h.
 Proof. exact every_stream_released_resumed_s. Qed.
@@ -219,24 +225,30 @@ Print Assumptions every_stream_released_all_calls.
 
 (* without an interrupt configuration a single call is the run of Model/StreamRun.v: the theorems
    above specialise to open_empty_at_end_* / every_stream_released *)
-Theorem run_int_without_interrupts_is_run : forall g sched,
-  run_int g icfg0 [sched] = res_map to_sout (run g sched).
+Theorem run_int_without_interrupts_is_run : forall g b rest,
+  run_int g icfg0 b (one_call rest) = res_map to_sout (run g (b :: rest)).
 Proof. exact run_int_icfg0_l. Qed.
 
 Example finished_run_dag_nonvacuous :
-  exists out st, run_int ex_dag ex_dag_cfg ex_dag_segs = Ok (SDone out [] st) /\ all_finished ex_dag st = true /\
+  exists out st, run_int ex_dag ex_dag_cfg [(0, [])] ex_dag_tms = Ok (SDone out [] st) /\ all_finished ex_dag st = true /\
                  s_open (rs_store st) = [out] /\ l_cp_drains (rs_log st) = 3%nat /\ l_input_closes (rs_log st) = 1%nat /\
                  l_merges (rs_log st) = [3%nat].
 Proof. exact ex_dag_resumed_ok. Qed.
 
 (* eager Workflow, interrupt-after node: the interrupting pass collects the tasks still running *)
 Example finished_run_workflow_nonvacuous :
-  exists out st, run_int ex_wf ex_wf_cfg ex_wf_segs = Ok (SDone out [] st) /\ all_finished ex_wf st = true /\
+  exists out st, run_int ex_wf ex_wf_cfg [(0, [])] ex_wf_tms = Ok (SDone out [] st) /\ all_finished ex_wf st = true /\
                  s_open (rs_store st) = [out] /\ l_cp_drains (rs_log st) = 3%nat /\ l_input_closes (rs_log st) = 1%nat.
 Proof. exact ex_wf_resumed_ok. Qed.
 
+(* a task asks for a rerun: it stays pending with an empty input, the task collected with it is resolved *)
+Example finished_run_rerun_nonvacuous :
+  exists out st, run_int ex_dag icfg0 [(0, [])] ex_rr_tms = Ok (SDone out [] st) /\ all_finished ex_dag st = true /\
+                 s_open (rs_store st) = [out] /\ l_cp_drains (rs_log st) = 3%nat /\ l_input_closes (rs_log st) = 1%nat.
+Proof. exact ex_rerun_ok. Qed.
+
 Example suspended_run_nonvacuous :
-  exists ready st, run_int ex_dag ex_dag_cfg [ [ [(0, [])]; [(2, [[3; 4]])] ] ] = Ok (SInt ready st) /\
+  exists ready st, run_int ex_dag ex_dag_cfg [(0, [])] [ Proofs.StreamResume.mkseg [ [(2, [[3; 4]])] ] [] ] = Ok (SInt ready [] st) /\
                    List.length ready = 2%nat /\ List.length (held ex_dag st) = 1%nat.
 Proof. exact ex_dag_suspended_ok. Qed.
 
